@@ -23,6 +23,56 @@ type Case struct {
 	StepViews bool   `json:"step_views,omitempty"` // views of the evolving block after every step
 	LastOnly  bool   `json:"last_only,omitempty"`  // ... after the last step only
 	Fast      bool   `json:"fast,omitempty"`       // also run the alternative split path side by side
+	// growth (C09-1, -4, -5, -6; C10-2)
+	Bounds    []BoundsCase `json:"bounds,omitempty"`     // non-empty dvid.Bounds for the sparse views of every label set
+	Probes    [][2]uint64  `json:"probes,omitempty"`     // ReplaceLabel(t, n) on the fresh block: returned count (getNumVoxels)
+	Holes     []int        `json:"holes,omitempty"`      // sub-blocks (0-based, holding only label 0) re-serialized with a label count of 0
+	OutPoints bool         `json:"out_points,omitempty"` // Value / GetPointLabels on points outside the block
+	RLEPres   int          `json:"rle_pres,omitempty"`   // presentation of split run-lengths: 0 maximal runs, 1 broken into adjacent runs, 2 single voxels
+}
+
+// BoundsCase is one non-empty dvid.Bounds applied to NB x-adjacent copies of the block.  Box, Pass
+// and the cuts come from TLC (specs/LabelBlockBounds.tla).
+type BoundsCase struct {
+	Box    [6]*int32  `json:"box"` // minx maxx miny maxy minz maxz, nil = open
+	Exact  bool       `json:"exact"`
+	NB     int        `json:"nb"`
+	Pass   []bool     `json:"pass"`    // blocks that pass the block-level screen
+	CutMin [][3]int32 `json:"cut_min"` // voxel cut of every block (DVID coordinates)
+	CutMax [][3]int32 `json:"cut_max"`
+}
+
+// BoundObs is the comparison of one bounded sparse view with {voxels of the label set inside the cut}.
+type BoundObs struct {
+	RLE BoundRes `json:"rle"`
+	Bin BoundRes `json:"bin"`
+}
+
+// BoundRes: OK = the output is exactly the expected set (exact bounds) / lies between the cut
+// foreground and the whole foreground of the passing blocks (inexact bounds, binary blocks).
+type BoundRes struct {
+	OK     bool   `json:"ok"`
+	Err    string `json:"err,omitempty"`
+	Detail string `json:"detail,omitempty"`
+	Voxels int    `json:"voxels"` // voxels of the output
+}
+
+// ProbeObs is one ReplaceLabel probe.
+type ProbeObs struct {
+	Replaced uint64 `json:"replaced"`
+	Err      string `json:"err,omitempty"`
+	Panic    string `json:"panic,omitempty"`
+	Decoded  *Proj  `json:"decoded,omitempty"` // first probe only: the block after the replacement
+}
+
+// HoleObs: the block re-serialized with NumSBLabels[i] = 0 for the hole sub-blocks.
+type HoleObs struct {
+	Err      string `json:"err,omitempty"`     // harness-side problem
+	Refused  string `json:"refused,omitempty"` // UnmarshalBinary refused the serialization
+	DecodeOK bool   `json:"decode_ok"`         // MakeLabelVolume = the original array
+	Detail   string `json:"detail,omitempty"`
+	Panic    string `json:"panic,omitempty"`
+	Views    *Views `json:"views,omitempty"`
 }
 
 // Step is one operation on the evolving block.
@@ -36,6 +86,8 @@ type Step struct {
 	S       []int       `json:"s,omitempty"`     // region set of the sparse volume
 	Fresh0  uint64      `json:"fresh0,omitempty"`
 	Marshal bool        `json:"marshal,omitempty"` // pass the block through MarshalBinary/UnmarshalBinary first
+	NoKey   bool        `json:"nokey,omitempty"`   // splitsv: the run-lengths are filed under another block's key
+	FailAt  int         `json:"failat,omitempty"`  // dosplit: the label allocator fails at its FailAt-th call
 }
 
 // Proj is a projection of a voxel array onto the atoms (region, palette position).
@@ -75,6 +127,11 @@ type Views struct {
 	Detail      string      `json:"detail,omitempty"`
 	Sets        []SetObs    `json:"sets,omitempty"`
 	NPoints     int         `json:"npoints"`
+	// growth
+	Bounded [][]BoundObs `json:"bounded,omitempty"` // [label set][bounds case]
+	Probes  []ProbeObs   `json:"probes,omitempty"`
+	OutRun  bool         `json:"out_run,omitempty"`
+	OutOK   bool         `json:"out_ok,omitempty"` // points outside the block read as label 0, points inside are unaffected
 }
 
 // Stat is one entry of the counts returned by DoSplitWithStats / SplitStats.
@@ -89,7 +146,8 @@ type Stat struct {
 type StepObs struct {
 	Err         string `json:"err,omitempty"`
 	Panic       string `json:"panic,omitempty"`
-	Nil         bool   `json:"nil,omitempty"` // the operation returned no block (block unchanged)
+	Nil         bool   `json:"nil,omitempty"`          // the operation returned no block (block unchanged)
+	AllocFailed bool   `json:"alloc_failed,omitempty"` // dosplit with a failing allocator: error and no block from both SplitStats and DoSplitWithStats
 	Decoded     Proj   `json:"decoded"`
 	Kept        uint64 `json:"kept"`
 	Split       uint64 `json:"split"`
@@ -127,6 +185,7 @@ type CaseObs struct {
 	Views     *Views      `json:"views,omitempty"`
 	Subvols   []SubvolObs `json:"subvols,omitempty"`
 	Steps     []StepObs   `json:"steps,omitempty"`
+	Hole      *HoleObs    `json:"hole,omitempty"`
 }
 
 // Octant is one hi-res octant of a down-sampling case.
@@ -140,13 +199,13 @@ type Octant struct {
 
 // DownresCase is one down-sampling case: prev is the lower-resolution block before.
 type DownresCase struct {
-	ID      int        `json:"id"`
-	Size    [3]int     `json:"size"`
-	Prev    Geometry   `json:"prev"`
-	PrevPal [][]uint64 `json:"prev_pal"`
-	PrevSolid bool     `json:"prev_solid,omitempty"` // prev built by MakeSolidBlock(PrevPal[0][0])
-	Oct     [8]Octant  `json:"oct"`
-	Fast    bool       `json:"fast,omitempty"`
+	ID        int        `json:"id"`
+	Size      [3]int     `json:"size"`
+	Prev      Geometry   `json:"prev"`
+	PrevPal   [][]uint64 `json:"prev_pal"`
+	PrevSolid bool       `json:"prev_solid,omitempty"` // prev built by MakeSolidBlock(PrevPal[0][0])
+	Oct       [8]Octant  `json:"oct"`
+	Fast      bool       `json:"fast,omitempty"`
 }
 
 // DownresPath is the result of one down-sampling code path projected onto the vote sites
